@@ -1,15 +1,29 @@
 // C32 harness: GET/HEAD with Range and Accept-Encoding headers against the
 // REAL volume server handler (privateStoreHandler -> GetOrHeadHandler ->
 // writeResponseContent -> processRangeRequest -> parseRange) over a real
-// storage.Store holding one volume in a temp dir.
+// storage.Store holding one volume in a temp dir, and direct calls of the real
+// parseRange for blob sizes up to 2^63-1.
 //
 // Variants (checks/C32.json): "" = seeded random stream (the witnesses of the
 // known findings first); "sweep-a" .. "sweep-d" = the seed-independent
 // exhaustive sweep of every single range "a-b", "a-", "-n" over a,b,n in
-// 0..size+2 for the blob sizes of that group, then random fill.
+// 0..size+2 for the blob sizes of that group, then random fill; "parse" =
+// parseRange alone.
+//
+// Observation point: an own http.ResponseWriter that snapshots the header map
+// when the handler writes the status line (no content sniffing, no net/http
+// framing): status, Content-Type, Content-Range, Content-Length,
+// Content-Encoding, Content-Disposition, Accept-Ranges and the body are what
+// the HANDLER produced (a real server would drop a negative Content-Length).
+//
+// A panic anywhere while running or projecting one case (a handler panic, an
+// unparsable header, a multipart body the reader refuses) is recovered and
+// reported as a case that disagrees with the model: the harness never dies
+// on a single case.
 package main
 
 import (
+	"bytes"
 	"fmt"
 	"io"
 	"mime"
@@ -17,6 +31,7 @@ import (
 	"net/http"
 	"net/http/httptest"
 	"os"
+	"path/filepath"
 	"regexp"
 	"strconv"
 	"strings"
@@ -31,53 +46,68 @@ import (
 )
 
 type blobDef struct {
-	id    uint64
-	flag  bool
-	data  []byte // as stored
-	plain []byte // what was compressed (== data when not gzip)
-	label string
+	id      uint64
+	flag    bool
+	data    []byte // as stored
+	plain   []byte // what util.DecompressData returns on data (== data when it is not asked)
+	gzok    bool   // util.DecompressData returned no error
+	name    string
+	mime    string
+	extmime string // mime.TypeByExtension(filepath.Ext(name))
+	label   string
+	letters bool // data is the "abcdef" prefix of its length
 }
 
 const cookie = 0x1a2b3c4d
 
-type spec struct {
-	kind int // 0 closed, 1 from, 2 suffix
-	a, b uint64
+// ---------- Coq printing ----------
+
+// pk prints bytes as (unpack [..]%uint63): 7 bytes per primitive integer below a leading 1.
+func pk(b []byte) string {
+	if len(b) == 0 {
+		return "(unpack [])"
+	}
+	var sb strings.Builder
+	sb.WriteString("(unpack [")
+	for i := 0; i < len(b); i += 7 {
+		j := i + 7
+		if j > len(b) {
+			j = len(b)
+		}
+		if i > 0 {
+			sb.WriteString("; ")
+		}
+		v := uint64(1)
+		for _, c := range b[i:j] {
+			v = v<<8 | uint64(c)
+		}
+		fmt.Fprintf(&sb, "%d", v)
+	}
+	sb.WriteString("]%uint63)")
+	return sb.String()
 }
 
-func (s spec) print() string {
-	switch s.kind {
-	case 0:
-		return fmt.Sprintf("%d-%d", s.a, s.b)
-	case 1:
-		return fmt.Sprintf("%d-", s.a)
+// coqStr prints a header value: a string literal when printable ASCII, bytes otherwise.
+func coqStr(s string) string {
+	for i := 0; i < len(s); i++ {
+		if s[i] < 0x20 || s[i] > 0x7e {
+			return "(str_of_bytes " + hx.Bytes([]byte(s)) + ")"
+		}
 	}
-	return fmt.Sprintf("-%d", s.a)
-}
-func (s spec) coq() string {
-	switch s.kind {
-	case 0:
-		return fmt.Sprintf("RClosed %d %d", s.a, s.b)
-	case 1:
-		return fmt.Sprintf("RFrom %d", s.a)
-	}
-	return fmt.Sprintf("RSuffix %d", s.a)
-}
-func header(sp []spec) string {
-	xs := make([]string, len(sp))
-	for i, s := range sp {
-		xs[i] = s.print()
-	}
-	return "bytes=" + strings.Join(xs, ",")
+	return hx.Str(s)
 }
 
-type req struct {
-	head  bool
-	blob  *blobDef
-	ae    string
-	rng   string
-	specs []spec // nil unless rng == header(specs)
-	kind  string
+func (b *blobDef) coqData() string {
+	if b.letters {
+		return fmt.Sprintf("(letters %d)", len(b.data))
+	}
+	return pk(b.data)
+}
+func (b *blobDef) coqPlain() string {
+	if b.flag && util.IsGzippedContent(b.data) {
+		return hx.Some(pk(b.plain))
+	}
+	return "None"
 }
 
 var crRe = regexp.MustCompile(`^bytes (-?\d+)-(-?\d+)/(\d+)$`)
@@ -96,15 +126,300 @@ func coqCR(s string) string {
 	return "(" + z(m[1]) + ", " + z(m[2]) + ", " + z(m[3]) + ")%Z"
 }
 
+// ---------- the observation point ----------
+
+type recorder struct {
+	h      http.Header
+	snap   http.Header
+	status int
+	body   bytes.Buffer
+}
+
+func (r *recorder) Header() http.Header { return r.h }
+func (r *recorder) WriteHeader(c int) {
+	if r.snap == nil {
+		r.snap = r.h.Clone()
+		r.status = c
+	}
+}
+func (r *recorder) Write(b []byte) (int, error) {
+	r.WriteHeader(200)
+	return r.body.Write(b)
+}
+
 const seekErrText = "bytes.Reader.Seek: negative position\n"
+const eofText = "EOF\n"
+const internalErrText = "Internal Error\n"
+
+type req struct {
+	head  bool
+	dl    bool
+	blob  *blobDef
+	ae    string
+	rng   string
+	items []item // nil unless rng == renderHeader(items)
+	kind  string
+}
+
+type harness struct {
+	out   *hx.Out
+	vs    *weed_server.VolumeServer
+	blobs []*blobDef
+}
+
+// inputs of a GET case as Coq record fields (without the observables)
+func (q req) coqInputs() string {
+	items := "None"
+	if q.items != nil {
+		items = hx.Some(coqItems(q.items))
+	}
+	b := q.blob
+	return fmt.Sprintf("c_head := %s; c_dl := %s; c_flag := %s; c_data := %s; c_plain := %s; c_gzok := %s; "+
+		"c_name := %s; c_mime := %s; c_extmime := %s; c_ae := %s; c_range := %s; c_items := %s",
+		hx.Bool(q.head), hx.Bool(q.dl), hx.Bool(b.flag), b.coqData(), b.coqPlain(), hx.Bool(b.gzok),
+		coqStr(b.name), coqStr(b.mime), coqStr(b.extmime), coqStr(q.ae), coqStr(q.rng), items)
+}
+
+func (q req) canon() string {
+	m := "GET"
+	if q.head {
+		m = "HEAD"
+	}
+	if q.dl {
+		m += "+dl"
+	}
+	return m + "|" + q.blob.label + "|" + q.ae + "|" + q.rng
+}
+
+// brokenGet is what a case that could not be run or projected looks like: no model answer equals it.
+func brokenGet(q req) string {
+	return "(CGet {| " + q.coqInputs() + "; i_status := 599; i_ct := \"\"%string; i_cdisp := \"\"%string; i_ar := false; " +
+		"i_cr := None; i_cl := None; i_body := Plain [] 9; i_gzip := false |})"
+}
+
+// observe runs the real handler and projects the answer; it may panic.
+func (h *harness) observe(q req) (term string, nontrivial bool, status int, multi bool) {
+	method := "GET"
+	if q.head {
+		method = "HEAD"
+	}
+	url := fmt.Sprintf("/3,%x%08x", q.blob.id, cookie)
+	if q.dl {
+		url += "?dl=true"
+	}
+	r := httptest.NewRequest(method, url, nil)
+	if q.ae != "" {
+		r.Header.Set("Accept-Encoding", q.ae)
+	}
+	if q.rng != "" {
+		r.Header.Set("Range", q.rng)
+	}
+	w := &recorder{h: http.Header{}}
+	h.vs.VerifC34PrivateHandler(w, r)
+	if w.snap == nil { // the handler never wrote: implicit 200 with the final headers
+		w.snap = w.h.Clone()
+		w.status = 200
+	}
+	hd := w.snap
+	raw := w.body.Bytes()
+	status = w.status
+
+	cr := "None"
+	if v := hd.Get("Content-Range"); v != "" {
+		cr = hx.Some(coqCR(v))
+	}
+	cl := "None"
+	var clv int64
+	hasCL := false
+	if v := hd.Get("Content-Length"); v != "" {
+		n, e := strconv.ParseInt(v, 10, 64)
+		hx.Must(e)
+		clv, hasCL = n, true
+		cl = hx.Some(hx.Z(n))
+	}
+	ct := hd.Get("Content-Type")
+	var body string
+	nonEmpty := false
+	if mt, params, e := mime.ParseMediaType(ct); e == nil && mt == "multipart/byteranges" && status == 206 {
+		multi = true
+		ct = mt
+		boundary := params["boundary"]
+		clean := false
+		var parts []string
+		pct := ""
+		if len(raw) == 0 {
+			clean = true
+		} else if bytes.HasSuffix(raw, []byte("\r\n--"+boundary+"--\r\n")) {
+			clean = true
+			mr := multipart.NewReader(bytes.NewReader(raw), boundary)
+			for i := 0; ; i++ {
+				p, e := mr.NextRawPart()
+				if e == io.EOF {
+					break
+				}
+				if e != nil {
+					clean = false
+					break
+				}
+				pb, e := io.ReadAll(p)
+				if e != nil {
+					clean = false
+					break
+				}
+				if len(pb) > 0 {
+					nonEmpty = true
+				}
+				t := p.Header.Get("Content-Type")
+				if i == 0 {
+					pct = t
+				} else if t != pct {
+					pct = "<mixed part types>"
+				}
+				parts = append(parts, hx.Pair(coqCR(p.Header.Get("Content-Range")), hx.Bytes(pb)))
+			}
+		}
+		tail := 0
+		if !clean {
+			parts, nonEmpty, pct = nil, false, ""
+			tail = 2
+			if bytes.HasSuffix(raw, []byte(internalErrText)) {
+				tail = 1
+			}
+			// the part type is still visible in the first part header
+			if i := bytes.Index(raw, []byte("\r\nContent-Type: ")); i >= 0 {
+				rest := raw[i+len("\r\nContent-Type: "):]
+				if j := bytes.Index(rest, []byte("\r\n")); j >= 0 {
+					pct = string(rest[:j])
+				}
+			}
+		}
+		// nothing sent: no part type is observable (the model says "" there too)
+		body = fmt.Sprintf("(Multipart %s %s %d %s)", coqStr(pct), hx.List(parts), tail, hx.Z(int64(len(raw))))
+	} else {
+		errk := 0
+		b := raw
+		switch {
+		case status == 416:
+			switch string(b) {
+			case "invalid range\n":
+				errk = 3
+			case "Out of Range\n":
+				errk = 4
+			default:
+				errk = 9
+			}
+			b = nil
+		case status == 206:
+			switch {
+			case hasCL && int64(len(b)) == clv:
+			case bytes.HasSuffix(b, []byte(seekErrText)):
+				errk = 1
+				b = b[:len(b)-len(seekErrText)]
+			case bytes.HasSuffix(b, []byte(eofText)) && hasCL && int64(len(b)-len(eofText)) < clv:
+				errk = 2
+				b = b[:len(b)-len(eofText)]
+			case len(b) == 0: // negative Content-Length: nothing copied, no error
+			default:
+				errk = 9
+			}
+		}
+		nonEmpty = len(b) > 0
+		body = "(Plain " + hx.Bytes(b) + " " + strconv.Itoa(errk) + ")"
+	}
+	term = fmt.Sprintf("(CGet {| %s; i_status := %d; i_ct := %s; i_cdisp := %s; i_ar := %s; i_cr := %s; i_cl := %s; i_body := %s; i_gzip := %s |})",
+		q.coqInputs(), status, coqStr(ct), coqStr(hd.Get("Content-Disposition")), hx.Bool(hd.Get("Accept-Ranges") == "bytes"),
+		cr, cl, body, hx.Bool(hd.Get("Content-Encoding") == "gzip"))
+	nontrivial = (status == 200 || status == 206) && nonEmpty
+	return
+}
+
+// run never dies on a case: a panic becomes a case no model answer equals.
+func (h *harness) run(q req) {
+	var term string
+	var nontrivial, multi bool
+	status := 599
+	func() {
+		defer func() {
+			if e := recover(); e != nil {
+				term, nontrivial, status, multi = brokenGet(q), false, 599, false
+				h.out.Count("recovered-panic", 1)
+			}
+		}()
+		term, nontrivial, status, multi = h.observe(q)
+	}()
+	h.out.Add(term, q.canon(), nontrivial, q.kind)
+	h.out.Count(fmt.Sprintf("status:%d", status), 1)
+	h.out.Count("blob:"+q.blob.label, 1)
+	if multi {
+		h.out.Count("multipart", 1)
+	}
+	if q.ae != "" {
+		h.out.Count("with-accept-encoding", 1)
+	}
+	if q.head {
+		h.out.Count("head", 1)
+	}
+	if q.items != nil && renderHeader(q.items) != q.rng {
+		panic("items do not render to the header")
+	}
+}
+
+// ---------- parseRange alone ----------
+
+type preq struct {
+	rng   string
+	size  int64
+	items []item
+	kind  string
+}
+
+func (h *harness) runParse(p preq) {
+	items := "None"
+	if p.items != nil {
+		items = hx.Some(coqItems(p.items))
+	}
+	res := "None"
+	nontrivial := false
+	func() {
+		defer func() {
+			if e := recover(); e != nil {
+				res = "(Some [((-599)%Z, (-599)%Z)])" // no model answer equals it
+				h.out.Count("recovered-panic", 1)
+			}
+		}()
+		rs, err := weed_server.VerifC32ParseRange(p.rng, p.size)
+		if err == nil {
+			xs := make([]string, len(rs))
+			for i, r := range rs {
+				xs[i] = hx.Pair(hx.Z(r.Start), hx.Z(r.Length))
+			}
+			res = hx.Some(hx.List(xs))
+			nontrivial = len(rs) > 0
+		}
+	}()
+	term := fmt.Sprintf("(CParse {| p_range := %s; p_size := %s; p_items := %s; p_res := %s |})",
+		coqStr(p.rng), hx.Z(p.size), items, res)
+	h.out.Add(term, fmt.Sprintf("parse|%d|%s", p.size, p.rng), nontrivial, p.kind)
+	h.out.Count(fmt.Sprintf("parse-size:%d", p.size), 1)
+}
 
 func main() {
 	out := hx.Flags("C32", 400)
-	out.Rule = "one request per case on a real Store volume holding blobs of sizes 0..6, 100, a gzip-compressed text blob and a blob flagged compressed that is not gzip; " +
-		"random stream: witnesses of the known findings first, then single/multi canonical range headers (boundary-biased a,b,n in 0..size+2, overlapping, oversized sums), " +
-		"free-form headers (spaces, signs, empty elements) and malformed ones, Accept-Encoding from a fixed list, 5% HEAD; " +
+	out.Rule = "GET cases: one request per case on a real Store volume holding blobs of sizes 0..6, 100, gzip-compressed text, a blob flagged compressed that is not gzip, " +
+		"an unflagged gzip stream, flagged blobs with a corrupt gzip stream (bad header, truncated, bad checksum) and of length 0, 1, 2, and blobs with a name and/or mime type; " +
+		"random stream: witnesses of the known findings first, then single/multi range headers (boundary-biased a,b,n in 0..size+2, overlapping, oversized sums, numbers around 2^63) " +
+		"in canonical and free spellings (white space incl. unicode spaces, '+', leading zeros, empty elements) with their structured reading, " +
+		"malformed / negative / int64-wrapping headers, Accept-Encoding from a grammar (codings, q-values, extra parameters), 5% HEAD, 8% ?dl=true; " +
 		"sweep variants: every single range a-b, a-, -n with a,b,n in 0..size+2 for each blob size of the group; " +
-		"non-trivial = 200/206 with a non-empty body; distinct = (method, blob, Accept-Encoding, Range)"
+		"parse variant: parseRange(text, size) alone for sizes 0,1,6,2^31-1,2^31+1,2^62,2^63-1 with numbers around the size and the int64 bounds; " +
+		"non-trivial = 200/206 with a non-empty body (parse: a non-empty range list); distinct = (method, blob, Accept-Encoding, Range) / (size, Range)"
+
+	h := &harness{out: out}
+	if out.Variant == "parse" {
+		h.genParse()
+		out.Write()
+		return
+	}
 
 	dir, err := os.MkdirTemp("", "c32")
 	hx.Must(err)
@@ -112,351 +427,81 @@ func main() {
 	s := storage.NewStore(nil, 0, "localhost", "localhost", []string{dir}, []int{100},
 		[]util.MinFreeSpace{{Type: util.AsPercent, Percent: 0}}, "", storage.NeedleMapInMemory, []types.DiskType{types.HardDriveType})
 	hx.Must(s.AddVolume(3, "", storage.NeedleMapInMemory, "000", "", 0, 0, types.HardDriveType))
-	vs := weed_server.VerifC34NewVolumeServer(s, security.NewGuard(nil, "", 0, "", 0), 1<<28)
+	h.vs = weed_server.VerifC34NewVolumeServer(s, security.NewGuard(nil, "", 0, "", 0), 1<<28)
 
-	// blobs are fixed (seed independent) except the 100-byte one and the text
+	// blobs are fixed (seed independent)
 	fixed := hx.NewRng(424242)
-	var blobs []*blobDef
-	add := func(b *blobDef) {
-		b.id = uint64(len(blobs) + 1)
+	add := func(b *blobDef) *blobDef {
+		b.id = uint64(len(h.blobs) + 1)
 		n := &needle.Needle{Id: types.NeedleId(b.id), Cookie: types.Cookie(cookie), Data: b.data}
 		if b.flag {
 			n.SetIsCompressed()
 		}
+		if b.name != "" {
+			n.Name = []byte(b.name)
+			n.SetHasName()
+			if ext := filepath.Ext(b.name); ext != "" {
+				b.extmime = mime.TypeByExtension(ext)
+			}
+		}
+		if b.mime != "" {
+			n.Mime = []byte(b.mime)
+			n.SetHasMime()
+		}
 		n.Checksum = needle.NewCRC(b.data)
 		_, err := s.WriteVolumeNeedle(3, n, false)
 		hx.Must(err)
-		blobs = append(blobs, b)
+		// the decompression oracle
+		b.plain, b.gzok = b.data, true
+		if b.flag && util.IsGzippedContent(b.data) {
+			p, e := util.DecompressData(b.data)
+			b.plain, b.gzok = p, e == nil
+		}
+		h.blobs = append(h.blobs, b)
+		return b
 	}
-	for sz := 0; sz <= 6; sz++ {
+	letters := func(sz int) []byte {
 		d := make([]byte, sz)
 		for i := range d {
 			d[i] = byte('a' + i)
 		}
-		add(&blobDef{data: d, plain: d, label: fmt.Sprintf("s%d", sz)})
+		return d
 	}
-	b100 := fixed.Bytes(100)
-	add(&blobDef{data: b100, plain: b100, label: "s100"})
+	for sz := 0; sz <= 6; sz++ { // blobs[0..6]
+		add(&blobDef{data: letters(sz), label: fmt.Sprintf("s%d", sz), letters: true})
+	}
+	add(&blobDef{data: fixed.Bytes(100), label: "s100"}) // 7
 	text := []byte(strings.Repeat("seaweed range ", 6))
 	gz, err := util.GzipData(text)
 	hx.Must(err)
-	add(&blobDef{flag: true, data: gz, plain: text, label: "gz"})
-	fake := []byte("flagged compressed, not gzip")
-	add(&blobDef{flag: true, data: fake, plain: fake, label: "fakegz"})
-	// a gzip stream stored WITHOUT the flag is served as is
-	add(&blobDef{flag: false, data: gz, plain: gz, label: "rawgz"})
-	bySize := func(sz int) *blobDef { return blobs[sz] }
+	add(&blobDef{flag: true, data: gz, label: "gz"})                                         // 8
+	add(&blobDef{flag: true, data: []byte("flagged compressed, not gzip"), label: "fakegz"}) // 9
+	add(&blobDef{flag: false, data: gz, label: "rawgz"})                                     // 10 a gzip stream stored WITHOUT the flag is served as is
+	// corrupt flagged streams
+	add(&blobDef{flag: true, data: []byte{0x1f, 0x8b, 0, 1, 2, 3, 4, 5, 6, 7, 8, 9}, label: "gzbadhdr"}) // 11
+	long := []byte(strings.Repeat("0123456789 the quick brown fox; ", 8))
+	gzl, err := util.GzipData(append(long, fixed.Bytes(60)...))
+	hx.Must(err)
+	add(&blobDef{flag: true, data: gzl[:len(gzl)*6/10], label: "gztrunc"}) // 12
+	bad := append([]byte{}, gz...)
+	bad[len(bad)-6] ^= 0xff
+	add(&blobDef{flag: true, data: bad, label: "gzcrc"})                // 13
+	add(&blobDef{flag: true, data: []byte{}, label: "flag0"})           // 14
+	add(&blobDef{flag: true, data: []byte{0x1f}, label: "flag1"})       // 15
+	add(&blobDef{flag: true, data: []byte{0x1f, 0x8b}, label: "flag2"}) // 16
+	// names and mime types
+	add(&blobDef{data: letters(6), letters: true, name: "a\"b\\c.txt", label: "named-txt"})                                 // 17
+	add(&blobDef{data: letters(6), letters: true, name: "x.bin", mime: "text/x-test", label: "named-mime"})                 // 18
+	add(&blobDef{data: letters(5), letters: true, name: "noext", mime: "application/octet-stream+x", label: "named-octet"}) // 19
+	add(&blobDef{data: letters(6), letters: true, name: "pic.png", label: "named-png"})                                     // 20
+	add(&blobDef{flag: true, data: gz, name: "t.txt", mime: "text/plain", label: "gz-named"})                               // 21
 
-	aes := []string{"", "gzip", "gzip, deflate", "deflate", "identity", "br;q=1.0, gzip;q=0.8, *;q=0.1",
-		"GZIP", "*", "x-gzip", "gzip;q=0", "deflate, gzip;q=0.000", "gzip ; q=0.0", "notgzip", "gzip;q=0.001", "*;q=0", "identity, *;q=0"}
-
-	run := func(q req) {
-		method := "GET"
-		if q.head {
-			method = "HEAD"
-		}
-		r := httptest.NewRequest(method, fmt.Sprintf("/3,%x%08x", q.blob.id, cookie), nil)
-		if q.ae != "" {
-			r.Header.Set("Accept-Encoding", q.ae)
-		}
-		if q.rng != "" {
-			r.Header.Set("Range", q.rng)
-		}
-		rec := httptest.NewRecorder()
-		vs.VerifC34PrivateHandler(rec, r)
-		res := rec.Result()
-		raw, err := io.ReadAll(res.Body)
-		hx.Must(err)
-
-		cr := "None"
-		if v := res.Header.Get("Content-Range"); v != "" {
-			cr = hx.Some(coqCR(v))
-		}
-		isMulti := false
-		var body string
-		nonEmpty := false
-		if mt, params, e := mime.ParseMediaType(res.Header.Get("Content-Type")); e == nil && mt == "multipart/byteranges" && res.StatusCode == 206 {
-			isMulti = true
-			mr := multipart.NewReader(strings.NewReader(string(raw)), params["boundary"])
-			var parts []string
-			for {
-				p, e := mr.NextRawPart()
-				if e == io.EOF {
-					break
-				}
-				hx.Must(e)
-				pb, e := io.ReadAll(p)
-				hx.Must(e)
-				if len(pb) > 0 {
-					nonEmpty = true
-				}
-				parts = append(parts, hx.Pair(coqCR(p.Header.Get("Content-Range")), hx.Bytes(pb)))
-			}
-			body = "(Multipart " + hx.List(parts) + ")"
-		} else {
-			werr := 0
-			b := raw
-			if res.StatusCode == 416 {
-				b = nil // error text of http.Error is not an observable
-			} else if res.StatusCode == 206 && strings.HasSuffix(string(b), seekErrText) {
-				werr = 1
-				b = b[:len(b)-len(seekErrText)]
-			}
-			nonEmpty = len(b) > 0
-			body = "(Plain " + hx.Bytes(b) + " " + hx.N(uint64(werr)) + ")"
-		}
-		cl := "None"
-		if v := res.Header.Get("Content-Length"); v != "" {
-			n, e := strconv.ParseInt(v, 10, 64)
-			hx.Must(e)
-			if isMulti {
-				n -= int64(len(raw))
-			}
-			cl = hx.Some(hx.Z(n))
-		}
-		specs := "None"
-		if q.specs != nil {
-			xs := make([]string, len(q.specs))
-			for i, sp := range q.specs {
-				xs[i] = sp.coq()
-			}
-			specs = hx.Some(hx.List(xs))
-			if header(q.specs) != q.rng {
-				panic("specs do not print to the header")
-			}
-		}
-		term := fmt.Sprintf("{| c_head := %s; c_flag := %s; c_data := %s; c_plain := %s; c_ae := %s; c_range := %s; c_specs := %s; "+
-			"i_status := %s; i_cr := %s; i_cl := %s; i_body := %s; i_gzip := %s |}",
-			hx.Bool(q.head), hx.Bool(q.blob.flag), hx.Bytes(q.blob.data), hx.Bytes(q.blob.plain), hx.Str(q.ae), hx.Str(q.rng), specs,
-			hx.N(uint64(res.StatusCode)), cr, cl, body, hx.Bool(res.Header.Get("Content-Encoding") == "gzip"))
-		nontrivial := (res.StatusCode == 200 || res.StatusCode == 206) && nonEmpty
-		out.Add(term, method+"|"+q.blob.label+"|"+q.ae+"|"+q.rng, nontrivial, q.kind)
-		out.Count(fmt.Sprintf("status:%d", res.StatusCode), 1)
-		out.Count("blob:"+q.blob.label, 1)
-		if isMulti {
-			out.Count("multipart", 1)
-		}
-		if q.ae != "" {
-			out.Count("with-accept-encoding", 1)
-		}
-	}
-	single := func(b *blobDef, sp spec, ae, kind string) req {
-		return req{blob: b, ae: ae, rng: header([]spec{sp}), specs: []spec{sp}, kind: kind}
-	}
-
-	var queue []req
-	// ---- seed independent part ----
 	switch out.Variant {
 	case "":
-		b6 := bySize(6)
-		gzb := blobs[8]
-		queue = append(queue,
-			req{blob: b6, rng: "bytes=", specs: []spec{}, kind: "witness0"},                                                       // k=0
-			req{blob: b6, rng: "bytes=0-,0-", specs: []spec{{1, 0, 0}, {1, 0, 0}}, kind: "witness1"},                            // k=1
-			single(b6, spec{1, 6, 0}, "", "witness2"),                                                                           // k=2  bytes=6-
-			req{blob: b6, rng: "bytes=--2", kind: "witness3"},                                                                   // k=3
-			req{blob: b6, rng: "bytes=0-1,9-10", specs: []spec{{0, 0, 1}, {0, 9, 10}}, kind: "witness4"},                        // k=4
-			req{blob: gzb, ae: "gzip;q=0", kind: "witness5"},                                                                    // k=5
-			req{blob: b6, rng: "bytes=--9223372036854775808", kind: "wrap"},
-			req{blob: b6, rng: "bytes=0-0,6-", specs: []spec{{0, 0, 0}, {1, 6, 0}}, kind: "witness2"},
-			req{blob: bySize(0), rng: "bytes=0-", specs: []spec{{1, 0, 0}}, kind: "witness2"},
-			req{blob: b6, rng: "bytes=-0", specs: []spec{{2, 0, 0}}, kind: "witness2"},
-		)
+		h.genWitnesses()
 	default:
-		var group []*blobDef
-		switch out.Variant {
-		case "sweep-a":
-			group = blobs[0:4]
-		case "sweep-b":
-			group = blobs[4:6]
-		case "sweep-c":
-			group = blobs[6:7]
-		case "sweep-d":
-			group = []*blobDef{blobs[7], blobs[8], blobs[9]}
-		default:
-			panic("unknown variant " + out.Variant)
-		}
-		for _, b := range group {
-			ae := ""
-			if b.label == "gz" {
-				ae = "gzip" // ranges over the compressed representation
-			}
-			sz := len(b.data)
-			var vals []uint64
-			if sz <= 6 {
-				for v := 0; v <= sz+2; v++ {
-					vals = append(vals, uint64(v))
-				}
-			} else {
-				vals = []uint64{0, 1, uint64(sz / 2), uint64(sz - 1), uint64(sz), uint64(sz + 1), uint64(sz + 2)}
-			}
-			for _, a := range vals {
-				for _, bb := range vals {
-					queue = append(queue, single(b, spec{0, a, bb}, ae, "sweep-closed"))
-				}
-				queue = append(queue, single(b, spec{1, a, 0}, ae, "sweep-from"))
-				queue = append(queue, single(b, spec{2, a, 0}, ae, "sweep-suffix"))
-			}
-			if b.label == "gz" {
-				for _, a := range []uint64{0, 1, uint64(len(b.plain) - 1), uint64(len(b.plain)), uint64(len(b.plain) + 1)} {
-					queue = append(queue, single(b, spec{1, a, 0}, "", "sweep-from"))
-					queue = append(queue, single(b, spec{2, a, 0}, "", "sweep-suffix"))
-					queue = append(queue, single(b, spec{0, a, a + 2}, "identity", "sweep-closed"))
-				}
-			}
-		}
-		out.Extra["sweep_cases"] = len(queue)
+		h.genSweep()
 	}
-	if len(queue) > out.N {
-		queue = queue[:out.N]
-	}
-	for _, q := range queue {
-		run(q)
-	}
-
-	// ---- seeded random part ----
-	root := hx.NewRng(out.Seed)
-	pickBlob := func(r *hx.Rng) *blobDef {
-		switch k := r.Intn(100); {
-		case k < 55:
-			return bySize(r.Intn(7))
-		case k < 70:
-			return blobs[7]
-		case k < 90:
-			return blobs[8]
-		case k < 95:
-			return blobs[9]
-		default:
-			return blobs[10]
-		}
-	}
-	for out.Len() < out.N {
-		r := root.Fork()
-		q := req{blob: pickBlob(r)}
-		switch k := r.Intn(100); {
-		case k < 55:
-			q.ae = ""
-		case k < 80:
-			q.ae = "gzip"
-		default:
-			q.ae = r.PickStr(aes)
-		}
-		q.head = r.Chance(1, 20)
-		// the size the ranges will refer to (only used to bias the generator)
-		sz := len(q.blob.plain)
-		if q.blob.flag && strings.Contains(q.ae, "gzip") && q.blob.label == "gz" {
-			sz = len(q.blob.data)
-		}
-		num := func() uint64 {
-			switch r.Intn(6) {
-			case 0:
-				return uint64(r.Intn(3))
-			case 1:
-				v := sz + r.Intn(5) - 2
-				if v < 0 {
-					v = 0
-				}
-				return uint64(v)
-			default:
-				if sz == 0 {
-					return uint64(r.Intn(2))
-				}
-				return uint64(r.Intn(sz))
-			}
-		}
-		genSpec := func(valid bool) spec {
-			switch r.Intn(4) {
-			case 0:
-				return spec{1, num(), 0}
-			case 1:
-				return spec{2, num(), 0}
-			default:
-				a, b := num(), num()
-				if valid && a > b {
-					a, b = b, a
-				}
-				return spec{0, a, b}
-			}
-		}
-		small := func() spec { // short in-bounds ranges so that sums stay below the size
-			if sz < 2 {
-				return genSpec(true)
-			}
-			a := uint64(r.Intn(sz))
-			l := uint64(r.Intn(2))
-			return spec{0, a, a + l}
-		}
-		switch k := r.Intn(100); {
-		case k < 5:
-			q.kind = "no-range"
-		case k < 25:
-			q.specs = []spec{genSpec(r.Chance(4, 5))}
-			q.rng = header(q.specs)
-			q.kind = "single"
-		case k < 50:
-			n := r.Range(2, 4)
-			for i := 0; i < n; i++ {
-				q.specs = append(q.specs, small())
-			}
-			q.rng = header(q.specs)
-			q.kind = "multi-small"
-		case k < 65:
-			n := r.Range(2, 4)
-			for i := 0; i < n; i++ {
-				q.specs = append(q.specs, genSpec(r.Chance(9, 10)))
-			}
-			q.rng = header(q.specs)
-			q.kind = "multi-any"
-		case k < 72:
-			// oversized sums
-			q.specs = []spec{{1, 0, 0}, genSpec(true)}
-			if r.Bool() {
-				q.specs = append(q.specs, spec{2, uint64(sz), 0})
-			}
-			q.rng = header(q.specs)
-			q.kind = "multi-oversize"
-		case k < 87:
-			// free-form: same content, non canonical spelling
-			n := r.Range(1, 3)
-			var xs []string
-			for i := 0; i < n; i++ {
-				sp := small()
-				if r.Chance(1, 3) {
-					sp = genSpec(true)
-				}
-				t := sp.print()
-				switch r.Intn(6) {
-				case 0:
-					t = " " + t
-				case 1:
-					t = t + " "
-				case 2:
-					t = strings.Replace(t, "-", " - ", 1)
-				case 3:
-					if sp.kind != 2 {
-						t = "+" + t
-					}
-				case 4:
-					t = "0" + t
-				}
-				xs = append(xs, t)
-				if r.Chance(1, 6) {
-					xs = append(xs, r.PickStr([]string{"", " ", "  "}))
-				}
-			}
-			q.rng = "bytes=" + strings.Join(xs, ",")
-			q.kind = "free-form"
-		default:
-			mal := []string{"bytes=", "bytes=,", "bytes= , ", "bytes=a-b", "byte=0-1", "bytes=5-2", "bytes=1", "bytes=-", "bytes=--3",
-				"bytes=1-2-3", "bytes=0x1-2", "bytes=1_0-", "bytes=99999999999999999999-", "bytes=-99999999999999999999",
-				"bytes=0-99999999999999999999", "bytes=--9223372036854775808", "bytes=--9223372036854775807", "bytes =0-1", " bytes=0-1", "Bytes=0-1", "bytes=0-1;",
-				"bytes=-+2", "bytes=--0", "bytes=0--1", "bytes=-1-2", "bytes=0-0,--1", "bytes=--1,0-0", "bytes=1-1,--3", "bytes=0-0,x", "0-1", "bytes", "bytes=0-+1",
-				"bytes=9223372036854775807-", "bytes=0-9223372036854775807", "bytes=-9223372036854775807", "bytes=9223372036854775808-"}
-			q.rng = r.PickStr(mal)
-			q.kind = "malformed"
-		}
-		run(q)
-	}
+	h.genRandom()
 	out.Write()
-	_ = http.StatusOK
 }
